@@ -1148,6 +1148,45 @@ def rule_generated_constraints_freed(chk, prog):
                                 "the constraint is dropped from the owning list without being deleted")
 
 
+def rule_iteration_edges_freed(chk, prog):
+    r = chk.rule("ITERATION-EDGES-FREED", "ConstrainedMajorizationLayout::run / runOnce hand the per-iteration vector `cedges` to straighten(), where "
+                 "straightener::generateClusterBoundaries `new`s an Edge per hull segment of every convex cluster into it: every way from a "
+                 "straighten(*sedges, ..) call to the end of the iteration passes the loop that deletes the entries of that vector (the "
+                 "vector of raw pointers goes out of scope there; ~Edge frees the route)", floor=2)
+    for q in ("cola::ConstrainedMajorizationLayout::run", "cola::ConstrainedMajorizationLayout::runOnce"):
+        fn = prog.fn(q)
+        g = CFG(fn)
+        loc = [d for d in fn.nodes() if d.get("k") == "VarDecl" and "straightener::Edge *" in d.get("t", "") and "vector" in d.get("t", "") and "*>" in d.get("t", "").replace(" ", "")
+               and not d.get("parm") and not d.get("t", "").rstrip().endswith("*")]
+        st = [c for c in calls(fn) if c.get("cname") == "cola::ConstrainedMajorizationLayout::straighten"]
+        if not loc or not st:
+            raise AnalysisBroken("%s: per-iteration edge vector / straighten call not found" % q)
+        r.count()
+        v = loc[0]
+        dels = []
+        for n in fn.nodes():
+            if n.get("k") == "CXXDeleteExpr" and n.get("ch"):
+                lp = [a for a in fn.ancestors(n) if a.get("k") in ("ForStmt", "CXXForRangeStmt", "WhileStmt")]
+                if lp and any(x.get("k") == "DeclRefExpr" and x.get("did") == v.get("did") for x in walk(lp[0])):
+                    dels.append(strip(lp[0]["cond"])["id"] if lp[0].get("cond") is not None else n["id"])
+        bad = None
+        if not dels:
+            bad = "the entries of `%s` are never deleted: the edges generated for the cluster boundaries leak in every iteration" % v.get("name")
+        else:
+            for c in st:
+                w = g.search([g.after(c)], blocked=dels, to_exit=True)
+                if w:
+                    bad = "after the straighten call at line %s the function can be left without freeing `%s` (%s)" % (c.get("l"), v.get("name"), g.describe(w))
+                    break
+                body = [a for a in fn.ancestors(c) if a.get("k") in ("DoStmt", "WhileStmt", "ForStmt")]
+                if body and body[-1].get("cond") is not None:
+                    w = g.search([g.after(c)], blocked=dels, targets=[strip(body[-1]["cond"])["id"]])
+                    if w:
+                        bad = "after the straighten call at line %s the next iteration starts without freeing `%s` (%s)" % (c.get("l"), v.get("name"), g.describe(w))
+                        break
+        (r.bad if bad else r.ok)(q.split("::")[-1], fn.loc(v), bad or "")
+
+
 def rule_vertex_unlisted(chk, prog):
     r = chk.rule("VERTEX-UNLISTED-BEFORE-DELETE", "every `delete` of an Avoid::VertInf is preceded, on every path, by VertInfList::removeVertex of the same "
                  "vertex (the router's vertex list is an intrusive list threaded through the vertices: a freed vertex that is still linked is "
@@ -1408,6 +1447,7 @@ def run(chk):
     chk.guard(rule_solver_objects_read_before_freed, chk, prog)
     chk.guard(rule_iterator_survives_growth, chk, prog)
     chk.guard(rule_prev_of_end, chk, prog)
+    chk.guard(rule_iteration_edges_freed, chk, prog)
     chk.guard(rule_callers_topology_kept, chk, prog)
     chk.guard(rule_generated_constraints_freed, chk, prog)
     chk.guard(rule_thrown_pointer, chk, prog)
